@@ -5,6 +5,7 @@ package reads
 
 import (
 	"fmt"
+	"sort"
 	"time"
 
 	"github.com/influxdata/influxdb/v2/models"
@@ -74,6 +75,16 @@ func shardOfSlot(t int) uint64 { return uint64(t/slotsPerShard) + 1 }
 // shard k (1-based) holds [shardStart(k), shardStart(k+1))
 func shardStart(k int) int64 { return slotTS((k - 1) * slotsPerShard) }
 
+// with overlapping shard groups the first group also covers the first overlapSlots slots of the second
+const overlapSlots = 2
+
+func shardEnd(k int, overlap bool) int64 {
+	if overlap && k == 1 {
+		return slotTS(slotsPerShard + overlapSlots)
+	}
+	return shardStart(k + 1)
+}
+
 func slotOfTS(ts int64) int {
 	j := ts/1000 + 8
 	if ts%1000 != 0 || j < 0 || j >= nSlots {
@@ -122,58 +133,81 @@ func engineOptions(cfg *tape.Stream, walDir string) tsdb.EngineOptions {
 }
 
 // ---- known finding C06-F1: the order KeyCursor gives the block locations of a key is not a strict weak order
-// (copied from h/eng/files_test.go)
+// (copied from h/eng/files_test.go): the locations are collected as FileStore.locations collects them for the
+// seek time and direction, sorted with the same comparison by the same sort.Sort, and the result is inspected.
+// A wrong read on a cursor whose locations come out in a consistent order is a different defect.
 
 type blockLoc struct {
 	path     string
 	min, max int64
 }
 
-func locsOf(files []tsm1.TSMFile, key []byte) []blockLoc {
+func locsOf(files []tsm1.TSMFile, key []byte, t int64, asc bool) []blockLoc {
 	var out []blockLoc
 	for _, tf := range files {
 		rd, ok := tf.(*tsm1.TSMReader)
-		if !ok || !tf.Contains(key) {
+		if !ok {
 			continue
 		}
+		fmin, fmax := tf.TimeRange()
+		if asc && fmax < t || !asc && fmin > t {
+			continue
+		}
+		tombs := tf.TombstoneRange(key)
 		var ents []tsm1.IndexEntry
 		ents = rd.ReadEntries(key, &ents)
+	next:
 		for _, e := range ents {
+			for _, tr := range tombs {
+				if tr.Min <= e.MinTime && tr.Max >= e.MaxTime {
+					continue next
+				}
+			}
+			if asc && e.MaxTime < t || !asc && e.MinTime > t {
+				continue
+			}
 			out = append(out, blockLoc{tf.Path(), e.MinTime, e.MaxTime})
 		}
 	}
 	return out
 }
 
-// orderCycle reports whether the comparison KeyCursor sorts block locations with (overlapping blocks by file
-// path, disjoint ones by time) is cyclic on this key's blocks: three blocks a<b<c<a.
-func orderCycle(locs []blockLoc, asc bool) bool {
-	less := func(a, b blockLoc) bool {
-		if a.min <= b.max && a.max >= b.min {
-			return a.path < b.path
-		}
-		if asc {
-			return a.min < b.min
-		}
-		return a.max < b.max
+type locSort struct {
+	l   []blockLoc
+	asc bool
+}
+
+func (s locSort) Len() int      { return len(s.l) }
+func (s locSort) Swap(i, j int) { s.l[i], s.l[j] = s.l[j], s.l[i] }
+func (s locSort) Less(i, j int) bool {
+	a, b := s.l[i], s.l[j]
+	if a.min <= b.max && a.max >= b.min {
+		return a.path < b.path
 	}
-	for i := range locs {
-		for j := range locs {
-			if i == j || !less(locs[i], locs[j]) {
-				continue
-			}
-			for k := range locs {
-				if k != i && k != j && less(locs[j], locs[k]) && less(locs[k], locs[i]) {
-					return true
-				}
+	if s.asc {
+		return a.min < b.min
+	}
+	return a.max < b.max
+}
+
+// misordered reports whether, after the cursor's own sort, some block of an older file stands behind an
+// overlapping block of a newer file.
+func misordered(locs []blockLoc, asc bool) bool {
+	l := append([]blockLoc(nil), locs...)
+	sort.Sort(locSort{l, asc})
+	for i := range l {
+		for j := i + 1; j < len(l); j++ {
+			if l[i].min <= l[j].max && l[i].max >= l[j].min && l[i].path > l[j].path {
+				return true
 			}
 		}
 	}
 	return false
 }
 
-func cycleTag(files []tsm1.TSMFile, key []byte, asc bool) string {
-	if orderCycle(locsOf(files, key), asc) {
+// cycleTag: t is the cursor's seek time (range start for ascending reads, range end for descending ones).
+func cycleTag(files []tsm1.TSMFile, key []byte, t int64, asc bool) string {
+	if misordered(locsOf(files, key, t, asc), asc) {
 		return ":keycursor-order-cycle"
 	}
 	return ""
